@@ -267,7 +267,8 @@ class C16(Prop):
         "pbAdv_consensus_cascade", "average_sampling_in_bounds", "average_all_empty", "linkage_additive_ultrametric", "idFilterAdv_consensus_cascade", "linkage_cladesizes_root", "fragment_rule_documented", "pairId_text_digital_agree", "pairId_text_digital_agree_dna", "msaSingleLinkage_one_cluster_at_zero", "idFilterText_keeps_first_at_zero", "blosum_all_one_at_zero", "idFilterDigital_keeps_top_at_zero",
         "gsc_tieRule_family_contains_code", "gsc_tieRule_irrelevant_without_ties", "gsc_no_tieRule_is_relisting_invariant", "gsc_sum_nonneg_any_join_order",
         "simulate_roll_names_active_branch", "simulate_invariant", "simulate_step_in_bounds", "simulate_finish_in_bounds", "compare_self_ok",
-        "threshold_linked_rounded_eq_exact", "singleLinkage_rounded_threshold_components", "idFilter_rounded_threshold", "blosum_rounded_threshold_clusters")]
+        "threshold_linked_rounded_eq_exact", "singleLinkage_rounded_threshold_components", "idFilter_rounded_threshold", "blosum_rounded_threshold_clusters",
+        "toDistanceMatrix_is_path_metric", "lcaLoop_path_and_terminates")]
     claimed = True
     technique = ("Lean 4 proof over the exact (Q) instance of a numeric-class-polymorphic executable model of esl_distance/esl_cluster/"
                  "esl_msacluster/esl_quicksort/esl_msaweight/esl_tree(UPGMA) + bit-exact differential correspondence of the Float instance "
@@ -302,6 +303,10 @@ class C16(Prop):
                   "state each branch index names an active branch and every unchecked array index of the loop and of the final pass is in range. "
                   "esl_tree_{SetTaxaParents,SetCladesizes,VerifyUltrametric,ToDistanceMatrix,RenumberNodes,Compare,Simulate} are modelled in the C array "
                   "layout and compared bit-exactly on cluster_engine trees (all four modes) and simulated trees. "
+                  "Round 6b: over a carrier with ROUNDED division (any monotone rounding exact at 0 with error eps on [0,1], 2*eps*B^2 < 1) a threshold that is a rounded "
+                  "attained identity fl(p/q) links exactly the pairs of exact identity >= p/q, so single linkage (= components of the exact graph), the BLOSUM clusters and both "
+                  "identity filters run with rounded quotients return what the exact run returns; esl_tree_ToDistanceMatrix always terminates on a parents-first numbered tree and "
+                  "each entry is the two terminal branches plus a tree-path length between the parent nodes (specification TreePath, independent of the loop). "
                   "The hand model is tied to the working tree by an exact differential run (weights as bit patterns, thresholds equal to "
                   "attained identities) and property monitors recompute every claim independently on the implementation's output.")
     level_note = ("Theorems are about exact rational arithmetic (L1); the binary64 results differ by rounding (L0, monitors use 1e-9). "
@@ -331,8 +336,9 @@ class C16(Prop):
                    "when no UPGMA pass has a tie for its minimum",
                    "not covered in the anchored files: esl_tree.c Newick I/O (WriteNewick/ReadNewick, esl_tree_Grow, CreateFromString), SetTaxonlabels and the "
                    "labelled branch of esl_tree_Compare, Validate (called, its verdict compared, not modelled); benchmark/stats drivers",
-                   "the tree functions added in round 6 are tied (bit-exact) and monitored; theorems exist for Simulate's index safety only — no theorem yet that "
-                   "VerifyUltrametric accepts every additive cluster_engine tree, that ToDistanceMatrix returns the path metric, or that Compare decides equality of clade sets "
+                   "the tree functions added in round 6 are tied (bit-exact) and monitored; theorems exist for Simulate's index safety, Compare(T,T) and (round 6b) ToDistanceMatrix = path metric on parents-first numbered trees (the path "
+                   "length of the specification TreePath is not proved unique) — no theorem yet that "
+                   "VerifyUltrametric accepts every additive cluster_engine tree, that cluster_engine / Simulate trees are numbered parents-first, or that Compare decides equality of clade sets "
                    "(each is checked by an independent python monitor on the implementation's output); loops the C code leaves unbounded on a malformed tree take fuel in the model",
                    "esl_tree_RenumberNodes does not renumber T->cladesize[] (the harness recomputes it); esl_tree_Simulate: -log of a uniform deviate is the libm value on both sides",
                    "esl_dst_XAvgSubsetConnectivity: every V[i] < N (the C code only asserts it at debug level)",
